@@ -207,7 +207,24 @@ def rule_bnaf_tree(prog, rep):
     want = eval_ref_function(prog, m, BNAF_LINEAR_REF, [KEY], {"n_blocks": N, "block_shape": BS}, no_inline=noin)
     g0 = got[1][0] if got[0] == "tuple" and got[1] else got
     compare(rep, "C09.mask@unwrap", site, "block_autoregressive_linear:weight-wrapper-tree", g0, want[1][0], "masked linear layer")
+    rule_bnaf_logjac_blocks(prog, rep, "C09.mask@unwrap", got=got)
+
+
+def rule_bnaf_logjac_blocks(prog, rep, R, got=None):
+    """The per-layer log-Jacobian callable returns log of exactly the diagonal blocks of the (unwrapped) weight, block b
+    at index b, each block in its own (row, column) layout - the operand of the log-space matrix product."""
+    m, fn = prog.func(BN + "block_autoregressive_linear")
+    site = f"{m.relpath}:{fn.lineno}"
+    noin = {"flowjax.masks.block_diag_mask", "flowjax.masks.block_tril_mask"}
+    KEY, N, BS = ("sym", "KEY"), ("sym", "N"), ("sym", "BS")
+    if got is None:
+        rep.rule(R, "block_autoregressive_linear's log-Jacobian callable is log(weight[where(block_diag_mask)]"
+                    ".reshape(n_blocks, *block_shape)): the diagonal blocks, in order, untransposed - what the log-det's "
+                    "log-space matrix product multiplies", minimum=1)
+        got = Interp(prog, no_inline=noin).eval_function(BN + "block_autoregressive_linear", [KEY], {"n_blocks": N, "block_shape": BS})
     f = got[1][1] if got[0] == "tuple" and len(got[1]) == 2 else None
+    if f is not None and not isinstance(f, tuple):
+        f = Interp(prog).as_term(f)
     ok = False
     if f is not None and f[0] == "lam" and f[1] == 1:
         lvl = min(s[1] for s in walk(f) if s[0] == "bv")
@@ -222,7 +239,7 @@ def rule_bnaf_tree(prog, rep):
         env.set("n_blocks", N)
         w = it.apply_def(fn2, env, (m, None, None), [("bv", lvl, 0)], {})
         ok = equal(f[2], w)
-    rep.check(ok, "C09.mask@unwrap", site, "block_autoregressive_linear:log-jacobian-reads-diagonal-blocks",
+    rep.check(ok, R, site, "block_autoregressive_linear:log-jacobian-reads-diagonal-blocks",
               "log(weight[where(block_diag_mask)].reshape(n_blocks, *block_shape))",
               f"log-Jacobian callable is {show(f, 240) if f else None}")
 
